@@ -38,6 +38,10 @@ class Triple(tuple[Node, Node, Node]):
     def __new__(cls, s: Node, p: Node, o: Node) -> Self:
         return tuple.__new__(cls, (s, p, o))
 
+    def __getnewargs__(self) -> tuple[Node, Node, Node]:
+        # copy and pickle call __new__ again; it takes the terms, not a tuple of them
+        return (self[0], self[1], self[2])
+
     @property
     def s(self) -> Node:
         return self[0]
@@ -68,6 +72,10 @@ class Quad(tuple[Node, Node, Node, GraphName]):
 
     def __new__(cls, s: Node, p: Node, o: Node, g: GraphName) -> Self:
         return tuple.__new__(cls, (s, p, o, g))
+
+    def __getnewargs__(self) -> tuple[Node, Node, Node, GraphName]:
+        # copy and pickle call __new__ again; it takes the terms, not a tuple of them
+        return (self[0], self[1], self[2], self[3])
 
     @property
     def s(self) -> Node:
@@ -106,6 +114,10 @@ class Prefix(tuple[str, rdflib.URIRef]):
 
     def __new__(cls, prefix: str, iri: rdflib.URIRef) -> Self:
         return tuple.__new__(cls, (prefix, iri))
+
+    def __getnewargs__(self) -> tuple[str, rdflib.URIRef]:
+        # copy and pickle call __new__ again; it takes the parts, not a tuple of them
+        return (self[0], self[1])
 
     @property
     def prefix(self) -> str:
